@@ -51,8 +51,6 @@ package bitswap
 // registered for a shorter one (row: height|row) would come out as a different, pending identifier
 // without that request's verifier ever having run.
 //@ pure func cidMhType(c cid.Cid) uint64
-//@ extern (github.com/ipfs/go-cid.Cid).Prefix
-//@   ensures result.MhType == cidMhType(c)
 //@ func (*hasher).write
 //@   property C10
 //@   requires h != nil && !$Verified
@@ -138,3 +136,35 @@ package bitswap
 //@   requires rndb != nil
 //@   callpre Accessor).RangeNamespaceData: $arg2 == rndb.ID.RangeNamespaceDataID.From && $arg3 == rndb.ID.RangeNamespaceDataID.To
 //@   checks err == nil ==> rndb.Container == rnd
+
+// ---------------------------------------------------------------------------------------------
+// C10 / C18: identifiers and content identifiers. A CID is accepted only if its codec is a registered
+// block type and it is a version-1 CID whose multihash type and digest length are exactly the ones
+// registered for that codec; the identifier taken out of it is the digest (the multihash without its
+// 4-byte type/length prefix: both registered codes are 3-byte varints, the length one byte - assumed
+// of go-multihash). (go-cid, assumed: Type, Prefix and Hash are projections of the CID.)
+//@ pure func cidCodec(c cid.Cid) uint64
+//@ pure func cidVersion(c cid.Cid) uint64
+//@ pure func cidMhLen(c cid.Cid) int
+//@ pure func cidHash(c cid.Cid) []byte
+//@ extern (github.com/ipfs/go-cid.Cid).Type
+//@   ensures result == cidCodec(c)
+//@ extern (github.com/ipfs/go-cid.Cid).Prefix
+//@   ensures result.MhType == cidMhType(c) && result.Codec == cidCodec(c) && result.Version == cidVersion(c) && result.MhLength == cidMhLen(c)
+//@ extern (github.com/ipfs/go-cid.Cid).Hash
+//@   ensures result == cidHash(c) && len(result) == 4 + cidMhLen(c) && cidMhLen(c) >= 0
+
+//@ func getSpec
+//@   property C10 C18
+//@   ensures err == nil ==> has(specRegistry, cidCodec(cid)) && result0 == specRegistry[cidCodec(cid)]
+
+//@ func validateCID
+//@   property C10 C18
+//@   ensures err == nil ==> has(specRegistry, cidCodec(cid)) && cidVersion(cid) == 1
+//@   ensures err == nil ==> cidMhType(cid) == specRegistry[cidCodec(cid)].mhCode && cidMhLen(cid) == specRegistry[cidCodec(cid)].idSize
+
+//@ func extractFromCID
+//@   property C10 C18
+//@   nopanic
+//@   ensures err == nil ==> has(specRegistry, cidCodec(cid)) && cidVersion(cid) == 1 && cidMhType(cid) == specRegistry[cidCodec(cid)].mhCode
+//@   ensures err == nil ==> len(result0) == specRegistry[cidCodec(cid)].idSize && result0 == cidHash(cid)[4:]
